@@ -1,6 +1,6 @@
 (* C02 -- static flat index: construction accepted iff labels distinct, exact bijection, and the
    refinement M = S (map-backed: unconditional; map-less auto-integer index: under auto_key_ok). *)
-Require Import SF.Prelude SF.PySlice SF.IndexBij Proofs.IndexBijFacts.
+Require Import SF.Prelude SF.PySlice Gen.Gen_c02 SF.IndexBij Proofs.IndexBijFacts.
 
 Section Main.
   Set Default Proof Using "All".
@@ -186,14 +186,26 @@ Section Main.
     unfold auto_key_ok, M_loc_to_iloc, S_lookup, M_index_auto, positions_getitem. cbn [ix_map ix_labels].
     unfold zlen. rewrite map_length, iota_length.
     destruct k as [c t]. cbn [fst snd].
-    destruct (to_Z c) as [z|] eqn:Ez.
-    - apply of_to in Ez as Hc. subst c. rewrite index_of_auto. destruct t; intros G.
-      + destruct ((- Z.of_nat n <=? z) && (z <? Z.of_nat n)) eqn:A,
-          ((0 <=? z) && (z <? Z.of_nat n)) eqn:B; try reflexivity; lia.
-      + rewrite G. reflexivity.
-      + discriminate.
-      + destruct ((0 <=? z) && (z <? Z.of_nat n)) eqn:B; [discriminate|reflexivity].
-    - rewrite (index_of_not_int n c Ez). destruct t; intros G; try reflexivity. discriminate.
+    destruct Gen_c02.gen_auto_lookup_validates.
+    - (* validated variant *)
+      unfold positions_getitem_valid, key_int, int_typed. cbn [fst snd].
+      destruct (to_Z c) as [z|] eqn:Ez.
+      + apply of_to in Ez as Hc. subst c. rewrite index_of_auto. destruct t; intros G; rewrite ?to_of.
+        * destruct ((0 <=? z) && (z <? Z.of_nat n)); reflexivity.
+        * rewrite G. reflexivity.
+        * discriminate.
+        * destruct ((0 <=? z) && (z <? Z.of_nat n)) eqn:B; [discriminate|reflexivity].
+      + rewrite (index_of_not_int n c Ez). destruct t; intros G; rewrite ?Ez; reflexivity.
+    - (* raw variant: the key is returned as NumPy accepted it *)
+      unfold positions_getitem_raw. cbn [fst snd].
+      destruct (to_Z c) as [z|] eqn:Ez.
+      + apply of_to in Ez as Hc. subst c. rewrite index_of_auto. destruct t; intros G.
+        * destruct ((- Z.of_nat n <=? z) && (z <? Z.of_nat n)) eqn:A,
+            ((0 <=? z) && (z <? Z.of_nat n)) eqn:B; try reflexivity; lia.
+        * rewrite G. reflexivity.
+        * discriminate.
+        * destruct ((0 <=? z) && (z <? Z.of_nat n)) eqn:B; [discriminate|reflexivity].
+      + rewrite (index_of_not_int n c Ez). destruct t; intros G; try reflexivity. discriminate.
   Qed.
 
   Lemma auto_contains_refines n k : auto_key_ok n k = true ->
@@ -237,9 +249,12 @@ Section Main.
   Proof.
     split; [apply auto_labels_NoDup|]. split; [|split].
     - intros i H. cbn [ix_labels M_index_auto]. rewrite nth_error_map, (iota_nth n i H). reflexivity.
-    - intros i H. unfold M_loc_to_iloc, positions_getitem. cbn [ix_map ix_labels M_index_auto fst snd].
+    - intros i H. unfold M_loc_to_iloc, positions_getitem, positions_getitem_valid, positions_getitem_raw, key_int, int_typed.
+      cbn [ix_map ix_labels M_index_auto fst snd].
       rewrite to_of. unfold zlen. rewrite map_length, iota_length.
-      replace ((- Z.of_nat n <=? Z.of_nat i) && (Z.of_nat i <? Z.of_nat n)) with true by lia. reflexivity.
+      replace ((- Z.of_nat n <=? Z.of_nat i) && (Z.of_nat i <? Z.of_nat n)) with true by lia.
+      replace ((0 <=? Z.of_nat i) && (Z.of_nat i <? Z.of_nat n)) with true by lia.
+      destruct Gen_c02.gen_auto_lookup_validates; reflexivity.
     - intros z. unfold M_contains, key_int, int_typed. cbn [ix_map ix_labels M_index_auto fst snd].
       rewrite to_of. unfold zlen. rewrite map_length, iota_length. lia.
   Qed.
